@@ -356,7 +356,7 @@ Theorem splice_drop_liar c v u xs s e i j known ts k cl :
 Proof.
   intros Hwf HA Hf Htoks new_len Hroom d written.
   destruct (splice_prep_ok c v u xs s e i j known cl Hwf HA Hf Hroom)
-    as [v2 [u2 [E2 [Hl2 [Hc2 [Hus2 [Hst2 [Hp2 [Ht2 [Hb2 [Hn2 [Hf2 He2]]]]]]]]]]]].
+    as [v2 [u2 [E2 [Hl2 [Hc2 [Hus2 [Hst2 [Hp2 [Ht2 [Hb2 [Hn2 [Hf2 [He2 _]]]]]]]]]]]]].
   fold new_len in Hc2.
   destruct HA as [Hle Hlen Hcap Hus Hst Hp Hm Ht Htok].
   destruct Hle as [Hsi [Hij [Hje Hel]]].
